@@ -250,8 +250,15 @@ func impliedFromGuards(gs []Guard, depth int) []string {
 		if fn == nil || fn.Blocks == nil {
 			return
 		}
+		sameFrame := fn.Parent() != nil && fn.Parent() == call.Parent()
 		for _, f := range summaryTrueDeep(fn, d-1) {
-			add(substParams(f, call))
+			s := substParams(f, call)
+			if sameFrame {
+				// a closure called in the function that created it: its free
+				// variables are the caller's own values
+				s = re(`up\(([^()]*)\)`).ReplaceAllString(s, "$1")
+			}
+			add(s)
 		}
 	}
 	for _, g := range gs {
